@@ -55,6 +55,7 @@ struct RegistryT<
 
 	struct BackUp final {
 		CompoForks compoRequested;
+		CompoRemains compoRemains;
 	};
 
 	// - - - - - - - - - - - - - - - - - - - - - - - - - - - - - - - - - - -
